@@ -1,17 +1,17 @@
 #!/bin/bash
 # mutant_eval.sh <Cxx> <k> <check-prop> [<check-prop>...]
 # Confirms a seeded change delivered in /tmp/mut/<Cxx>/_out (demo passes clean, suite passes + demo fails with the
-# patch), runs the given checks against the patched scratch checkout, and stores the change under /verif/seeded/.
+# patch; DEMO_FEATURES=smallvec runs the demo with that crate feature), runs the given checks against the patched scratch checkout, and stores the change under /verif/seeded/.
 P=$1; K=$2; shift 2
 W=/tmp/mut/$P
 O=$W/_out
 cd $W || exit 2
 git checkout -q -- . ; rm -f tests/demo$K.rs
 cp $O/demo$K.rs tests/demo$K.rs
-clean_demo=$(CARGO_NET_OFFLINE=true cargo test --offline --test demo$K 2>&1 | grep -E "^test result" | tail -1)
+clean_demo=$(CARGO_NET_OFFLINE=true cargo test --offline ${DEMO_FEATURES:+--features $DEMO_FEATURES} --test demo$K 2>&1 | grep -E "^test result" | tail -1)
 git apply $O/patch$K.diff || { echo "patch does not apply"; exit 2; }
 suite=$(CARGO_NET_OFFLINE=true cargo test --offline --lib --test conformance_tests 2>&1 | grep -E "^test result" | tr '\n' ' ')
-mut_demo=$(CARGO_NET_OFFLINE=true cargo test --offline --test demo$K 2>&1 | grep -E "^test result" | tail -1)
+mut_demo=$(CARGO_NET_OFFLINE=true cargo test --offline ${DEMO_FEATURES:+--features $DEMO_FEATURES} --test demo$K 2>&1 | grep -E "^test result" | tail -1)
 rm -f tests/demo$K.rs
 echo "[$P/$K] demo on clean tree : $clean_demo"
 echo "[$P/$K] suite with patch   : $suite"
